@@ -1964,7 +1964,7 @@ def gen(tier, rng, shard, nshards):
 
     # --- sample beacons: every profile, the three key variants, short and long histories
     for rk in range(nreal):
-        for rep in range(6 if thorough else 2):
+        for rep in range(16 if thorough else 4):
             if not mine():
                 continue
             spec = make_spec(rng, real_k=rk, n=rng.choice([1, 2, 3, 5, 8, 12]), multi=rep % 2 == 1)
@@ -1978,7 +1978,7 @@ def gen(tier, rng, shard, nshards):
                     yield "route", ln
 
     # --- synthetic configurations
-    nsyn = (160 if thorough else 24) // nshards + 1
+    nsyn = (2400 if thorough else 200) // nshards + 1
     for i in range(nsyn):
         spec = make_spec(rng)
         for ln in sess_lines(spec, ["rsa", "rand", "keys"]):
@@ -1986,10 +1986,10 @@ def gen(tier, rng, shard, nshards):
         if i % 2 == 0:
             for ln in sess_lines(spec, rng.sample(SIDE_VARIANTS, 2)):
                 yield "sess-keys", ln
-        if i % 4 == 0:
+        if i % 12 == 0:
             for ln in route_lines(rng, spec["cfg"], spec["cfgsrc"]):
                 yield "route", ln
-        if i % 4 == 1:
+        if i % 6 == 1:
             for ln in ctor_lines(rng, spec):
                 yield "ctor", ln
         if i % 3 == 0:
@@ -1999,14 +1999,21 @@ def gen(tier, rng, shard, nshards):
                 sp2["events"] = truncated(rng, spec, cap)
                 if sp2["events"]:
                     yield "malformed", build_line(sp2, rng.choice(["rsa", "rand", "keys"]), [{}] * len(sp2["events"]))
-    for i in range((60 if thorough else 10) // nshards + 1):
+    for i in range((600 if thorough else 60) // nshards + 1):
         spec = make_spec(rng, unrelated=True)
         for ln in sess_lines(spec, ["rsa", "keys"]):
             yield "unrelated", ln
         spec = make_spec(rng, multi=True)
         for ln in sess_lines(spec, ["rsa", "rand", "keys"]):
             yield "multi", ln
-    for i in range((30 if thorough else 6) // nshards + 1):
+    # the callback counter overflows 32 bits: send_callback raises struct.error before anything is sent
+    if mine():
+        spec = make_spec(rng, n=3)
+        spec["client"]["counter"] = 2 ** 32 - 1
+        spec["events"] = [e for e in gen_events(rng, spec["cfg"], 6, spec=spec)]
+        for ln in sess_lines(spec, ["keys"]):
+            yield "sess-keys", ln
+    for i in range((240 if thorough else 24) // nshards + 1):
         spec = make_spec(rng, uri_append=True, n=rng.randrange(1, 4))
         spec["probe_all"] = True
         for ln in sess_lines(spec, ["rsa"]):
